@@ -78,7 +78,12 @@ def run(tier, seed, work, replay):
         guards = [g for g in d["guards"] if g.startswith("G_C16_") or g == "G_C10_NoPanic"]
         sch = ev["schedule"]
         inter = any(sch[i] != sch[i - 1] and sch[i] in sch[:i - 1] for i in range(2, len(sch)))
-        return {"action": "Run", "guards": guards, "ops": sorted(set(ev["ops"])), "world": ev["world"], "interleaved": inter}
+        sg = {"action": "Run", "guards": guards, "ops": sorted(set(ev["ops"])), "world": ev["world"], "interleaved": inter}
+        if "G_C16_OneSpend" in guards:
+            # which one-time value was honoured more than once
+            sg["double_spent"] = sorted({op for op in ("totp_auth", "botp_use")
+                                         if sum(1 for o, r in zip(ev["ops"], ev["results"]) if o == op and r == "ok") > 1})
+        return sg
     unknown = []
     for d in devs:
         ev = evs[d["line"] - 1]
